@@ -19,6 +19,7 @@ import shutil
 import subprocess
 import tempfile
 from decimal import Decimal
+from fractions import Fraction
 
 try:
     import tomllib
@@ -35,13 +36,13 @@ F64_EXACT = 2 ** 53
 # KNOWN: inputs on which the real code violates the property today.  They are kept OUT of the generated families (so the
 # stand-ins pass on the current tree) -- the oracle is NOT weakened for anything else.
 # (Fixed since the first version of this module and now part of the families: yamlmulti `---` separators 60754ad, the extra
-#  newline after a YAML document 6ac2269, TOML values that could only be written as broken TOML 3850144.)
+#  newline after a YAML document 6ac2269, TOML values that could only be written as broken TOML 3850144, and JSON integers
+#  with |n| > 2^53 that went through f64 -- `out json 9007199254740993;` wrote 9007199254740992.0 -- fix json_int_exact.)
+# JSON has one number type: the JSON converter writes an integer a double holds exactly in float notation (`42.0` for 42,
+# pinned by the repo test convert::json::test::convert_int).  Numbers are therefore compared by EXACT numeric value
+# (num_equal: never through a float comparison of big integers), so `42.0` for 42 is fine and 9007199254740992.0 for
+# 9007199254740993 is not.
 KNOWN = [
-    # /verif/known_findings.txt  "finding: property=C03 unit=map_json ...":  the JSON converter sends integers through f64
-    # (`out json 9007199254740993;` writes 9007199254740992.0, `1` is written `1.0`).  JSON numbers are therefore compared by
-    # numeric value (so `1.0` for 1 is fine) and integers with |n| > 2^53 are not generated for the JSON family.
-    dict(id='json-int-via-f64', family='json', excluded='integers with |n| > 2^53',
-         input='out json 9007199254740993;', observed='9007199254740992.0', clause='numbers of equal numeric value'),
 ]
 
 
@@ -133,10 +134,11 @@ def show(v):
 # ---------------------------------------------------------------------------------------------------------------------
 # generator
 INT_EDGES = [0, 1, -1, 2, 7, -7, 10, 42, 255, 256, 65535, 65536, 2 ** 31 - 1, 2 ** 31, -2 ** 31, 2 ** 32, 10 ** 15,
-             F64_EXACT - 1, F64_EXACT, -F64_EXACT,
-             # beyond 2^53 (not in the JSON family, see KNOWN json-int-via-f64)
-             F64_EXACT + 1, -F64_EXACT - 1, 2 ** 62, 2 ** 62 + 1, 10 ** 18, 999999999999999999, 1234567890123456789,
-             I64_MAX, I64_MAX - 1, I64_MIN, I64_MIN + 1]
+             F64_EXACT - 1, F64_EXACT, -F64_EXACT, -F64_EXACT + 1,
+             # beyond 2^53: integers a double cannot hold (odd ones), or can (even ones / powers of two)
+             F64_EXACT + 1, -F64_EXACT - 1, F64_EXACT + 2, -F64_EXACT - 2, F64_EXACT + 3, 2 ** 54 + 2, 2 ** 54 + 1, 2 ** 62, 2 ** 62 + 1, -2 ** 62 - 1,
+             10 ** 18, 999999999999999999, 1234567890123456789, -1234567890123456789,
+             I64_MAX, I64_MAX - 1, I64_MAX - 511, I64_MAX - 512, I64_MAX - 1024, I64_MIN, I64_MIN + 1, I64_MIN + 1025]
 
 FLOATS = [0.0, 1.0, 1.5, 0.1, 0.2, 0.30000000000000004, 3.14159, 2.718281828459045, 100.0, 1000000.0, 1e-6, 1e-5, 1e-7,
           123456789.125, 1e15, 1e16, 1e17, 1e21, 1e22, 1e23, 9007199254740992.0, 9007199254740994.0, 1.0 / 3.0, 2.0 / 3.0,
@@ -202,8 +204,6 @@ def gen_int(rnd, fmt):
         n = rnd.randint(-F64_EXACT, F64_EXACT)
     else:
         n = rnd.randint(I64_MIN, I64_MAX)
-    if fmt == 'json' and abs(n) > F64_EXACT:          # KNOWN json-int-via-f64
-        n = rnd.choice([F64_EXACT, -F64_EXACT, F64_EXACT - 1, n % F64_EXACT, -(n % F64_EXACT)])
     return n
 
 
@@ -308,7 +308,7 @@ def fixed_values(fmt):
         chunk = KEY_STRINGS[i:i + 10]
         vals.append(Tup([(k, j) for j, k in enumerate(chunk)]))
         vals.append(Tup([('t', Tup([(k, Tup([(k, k)])) for k in chunk]))]))
-    ints = [n for n in INT_EDGES if fmt != 'json' or abs(n) <= F64_EXACT]
+    ints = list(INT_EDGES)
     vals.append(Tup([('ints', ints), ('floats', list(FLOATS)), ('neg', [-f for f in FLOATS])]))
     vals.append(Tup([('i%d' % j, n) for j, n in enumerate(ints)]))
     vals.append(Tup([('t', True), ('f', False), ('bools', [True, False]), ('e', []), ('et', Tup([])), ('ee', [[], [[]]]), ('le', [Tup([]), Tup([])]),
@@ -469,6 +469,23 @@ EXT = {'json': 'json', 'yaml': 'yaml', 'toml': 'toml', 'yamlmulti': 'yaml'}
 
 # ---------------------------------------------------------------------------------------------------------------------
 # oracle
+def exact(x):
+    """The exact rational value of a decoded / expected number (an int, or a finite float), None for inf / NaN."""
+    if isinstance(x, int):
+        return Fraction(x)
+    if x != x or x in (float('inf'), float('-inf')):
+        return None
+    return Fraction(x)          # exact: every finite double is a rational
+
+
+def num_equal(exp, obs):
+    """Equal numeric value, decided exactly (9007199254740993 is NOT 9007199254740992.0, 42 IS 42.0); infinities by identity."""
+    a, b = exact(exp), exact(obs)
+    if a is None or b is None:
+        return isinstance(exp, float) and isinstance(obs, float) and exp == obs
+    return a == b
+
+
 def same(exp, obs, path='$'):
     """None if the decoded data `obs` is the value `exp`; otherwise a one-line description of the first difference."""
     if exp is None:
@@ -480,7 +497,7 @@ def same(exp, obs, path='$'):
             return '%s: expected the number %r, decoded %r' % (path, exp, obs)
         if isinstance(exp, float) and exp != exp:
             return None if (isinstance(obs, float) and obs != obs) else '%s: expected NaN, decoded %r' % (path, obs)
-        return None if obs == exp else '%s: expected the number %r, decoded %r (numerically different)' % (path, exp, obs)
+        return None if num_equal(exp, obs) else '%s: expected the number %r, decoded %r (numerically different)' % (path, exp, obs)
     if isinstance(exp, str):
         if not isinstance(obs, str):
             return '%s: expected the string %r, decoded %r' % (path, exp, obs)
